@@ -264,7 +264,7 @@ func registerAll() {
 	watchAccepted := func(w *World) {
 		vrt.GoNamed("watch", func() {
 			vrt.WaitUntil("accepted", func() bool { return vnet.Accepted() > 0 })
-			w.Notes["accepted"]++
+			vrt.Atomic(func() { w.Notes["accepted"]++ })
 		})
 	}
 	regSpec(&Spec{
@@ -291,7 +291,7 @@ func registerAll() {
 		Extra: func(w *World) {
 			vrt.GoNamed("watch", func() {
 				vrt.WaitUntil("handler-started", func() bool { return w.Started > 0 })
-				w.Notes["handler-started"]++
+				vrt.Atomic(func() { w.Notes["handler-started"]++ })
 			})
 		},
 	})
@@ -302,7 +302,7 @@ func registerAll() {
 		Extra: func(w *World) {
 			vrt.GoNamed("watch", func() {
 				vrt.WaitUntil("handler-started", func() bool { return w.Started > 0 })
-				w.Notes["handler-started"]++
+				vrt.Atomic(func() { w.Notes["handler-started"]++ })
 			})
 		},
 	})
